@@ -2718,7 +2718,7 @@ class EquilibriumRegion(PsiContour):
             dtype=float,
         )
         scheck = sfunc_list[0][0](indices)
-        if numpy.any(scheck[1:] < scheck[:-1]):
+        if numpy.any(scheck[1:] <= scheck[:-1]):
             from matplotlib import pyplot
 
             print("at global xind", xind)
@@ -2730,9 +2730,9 @@ class EquilibriumRegion(PsiContour):
             pyplot.axhline(total_distance)
             pyplot.legend()
             pyplot.show()
-            decreasing = numpy.where(scheck[1:] < scheck[:-1])[0] + 1
+            decreasing = numpy.where(scheck[1:] <= scheck[:-1])[0] + 1
             raise ValueError(
-                f"In region {self.name} combined spacing function is decreasing at "
+                f"In region {self.name} combined spacing function is not increasing at "
                 f"indices {decreasing} on contour of length {len(self)}. It may help to "
                 f"increase/decrease {prefix}target_all_poloidal_spacing_length or "
                 f"{prefix}xpoint_poloidal_spacing_length."
